@@ -25,6 +25,7 @@ def run(ctx, sess):
     ctx.rule('C13.5', 'enumeration: sources/signals are listed by one loop over 0..COUNT-1 that tests def.id == i')
     ctx.rule('C13.6', 'string blocks: every copy into a string block is dominated by a compare of its length with the block capacity')
     ctx.rule('C13.8', 'string-block switch: after the reader moves to a fresh string block, no compare mixes a pointer into the old block with one into the new block, nothing is stored through an old-block pointer, the carried-over part ends at the old block\'s cursor, and a string that fills a whole block is rejected')
+    ctx.rule('C13.10', 'user data text arrives whole through the threaded writer: jls_twr_user_data queues the measured length (strlen + 1) of a STRING / JSON item on every accepting path, as the synchronous call stores it (shared with C06.12)')
     ctx.rule('C13.9', 'every stored item is delivered: in the reader loop that hands user data to the callback, no path leads from a chunk that was read successfully to the next iteration of the loop without passing the callback (only error returns leave the loop early)')
     ctx.rule('C13.7', 'absent strings: a char* field of a user definition is never passed to strlen/memcpy without a NULL test')
     r1(ctx, P)
@@ -36,6 +37,9 @@ def run(ctx, sess):
     r7(ctx, P, exc)
     r8(ctx, P)
     r9(ctx, P)
+    from .common import relay
+    from . import c06 as _src_c06
+    relay(ctx, sess, _src_c06.run, {'C06.12': 'C13.10'}, only_functions=('jls_twr_user_data',), minimum=1)
 
 
 def _calls(fn, names, evs=None):
